@@ -98,9 +98,17 @@ def undispatched : Sess := { dispatched := false }
 /-- `Server.close()`: closes the control listener, cancels every dispatcher registered in `connections`,
     waits for them and for `wait_closed()` — which (CPython 3.12.1) returns only when every accepted
     connection is gone.  Returns (what is still held afterwards, close() completed?). -/
+def serverCloseWith (refusesLate : Bool) (ss : List Sess) : List Res × Bool :=
+  let left := ss.flatMap (fun s =>
+    if s.dispatched then leftAfterFinally s
+    else if refusesLate then []        -- its dispatcher starts, sees the server is not serving, closes and returns
+    else held s)
+  (left, refusesLate || ss.all (·.dispatched))
+
+/-- the same for the source as it is now: whether a dispatcher that starts after `close()` refuses to serve is
+    regenerated from the source (`if not self.server.is_serving(): writer.close(); return`) -/
 def serverClose (ss : List Sess) : List Res × Bool :=
-  let left := ss.flatMap (fun s => if s.dispatched then leftAfterFinally s else held s)
-  (left, ss.all (·.dispatched))
+  serverCloseWith Generated.dispatcherRefusesWhenNotServing ss
 
 /-- a peer that vanishes: the session's own dispatcher sees EOF / reset and runs `finally`
     (an undispatched session starts, reads EOF and ends the same way) -/
